@@ -34,17 +34,19 @@ LEVEL_TEXT = ('Lean 4 theorems over a line-by-line heap model of plasTeX/DOM (Mo
               'outside the subtree; corollaries at heap level: text content preserved, no adjacent text nodes, idempotent. '
               'compareDocumentPosition_agrees_all: for every pair of nodes whose parent chains are real list memberships the answer equals '
               'the list model comparePos (same node, adjacent siblings, ancestor/descendant, two branches of one tree decided at the lowest '
-              'common ancestor, different trees). Carried by correspondence only (explicit statements): histories that contain normalize or '
-              'cloneNode steps (NoAlias, owner documents and well-formedness are proved to be kept), isEqualNode of a deep clone (model eqNode '
-              'against == on the real objects at every clone), normalisation of fragments held under other attribute keys, and edits through '
-              'attribute-held (self) fragments.')
+              'common ancestor, different trees). clone_isEqualNode: a deep clone is == its original both ways (model eqNode, compared with == / isEqualNode '
+              'of the real objects at every clone); clone_keeps_forest, normalize_keeps_forest, forest_reachable_all: every history mixing '
+              'the list operations with cloneNode(True) and normalize stays a well-formed forest (parent links, no duplicates, no cycle, '
+              'owner documents, well-formed lists). normalize_attribute_fragments(_no_adjacent_text): normalize of a node normalises its own subtree and the fragment it holds '
+              'under another attribute key (fragment subtree a tree disjoint from the node subtree, no nested attribute fragments). '
+              'Carried by correspondence only: nested attribute fragments under other keys; and edits through attribute-held (self) fragments.')
 LEVEL_NOTE = ('Trusted: Lean kernel (axioms propext, Classical.choice, Quot.sound), the correspondence harness (state-deduplicated exhaustive histories, '
               'random histories to length 40), CPython. Editing theorems assume NoAlias (no node uses attributes[self] as its child list); the view '
               'theorems do not. Theorems about clone/normalize/compare are stated for every unfolding depth below the recursion fuel of the driver '
               '(next+2). Modelled not verified: plain str arguments (createTextNode shortcut), toXML, user data, namespace stubs, '
               'importNode/adoptNode, __eq__/__lt__.')
 TECHNIQUE = 'Lean 4 proof (invariants + refinement over a heap model, induction over histories, allocation-frame arguments; mutual induction on trees) + differential correspondence'
-TRUSTED = ['edits through the self-attribute aliasing and histories containing normalize/cloneNode steps are tied to the list model by the hist stream only']
+TRUSTED = ['edits through the self-attribute aliasing and the normalisation of nested fragments under other attribute keys are tied by the hist stream only']
 ASSUMPTIONS = ['arguments are nodes (not plain str); every node is created by the one Document of the history',
                'operations that make the Python loop iterate a list it extends (fragment into itself) are not executed on the real code',
                'a history stops (both sides answer `cyclic`) as soon as a node becomes its own descendant; generators avoid such operations',
